@@ -10,6 +10,7 @@ import (
 	"runtime/debug"
 	"strconv"
 	"sync"
+	"sync/atomic"
 	"time"
 
 	"github.com/cenkalti/rain/v2/internal/peersource"
@@ -28,6 +29,7 @@ type clH struct {
 	r        *rand.Rand
 	in, obs  []int64
 	seq      int
+	ids      int64
 	lnPort   int
 	mu       sync.Mutex
 	accepted []net.Conn // connections our answering listener holds
@@ -122,8 +124,8 @@ func genConnLimit(r *rand.Rand, tier string) Case {
 					return
 				}
 				_ = c.SetDeadline(time.Time{})
-				h.seq++
-				if _, err := c.Write(btHandshake(ih, fmt.Sprintf("-SL%04d-scriptedpeer", h.seq%10000))); err != nil {
+				id := atomic.AddInt64(&h.ids, 1) // listener goroutines run concurrently: peer ids must still be unique
+				if _, err := c.Write(btHandshake(ih, fmt.Sprintf("-SL%04d-scriptedpeer", id%10000))); err != nil {
 					c.Close()
 					return
 				}
